@@ -123,11 +123,34 @@ def run_model(case):
     return out
 
 
+IF_PROBE = """function F
+  input Real u; input Real w; output Real a; output Real b;
+algorithm
+  a := u; b := w;
+  if a > 0 then a := a - 5; b := 1; else a := a; b := 2; end if;
+end F;
+model P input Real u; input Real w; Real p; Real q; equation (p, q) = F(u, w); end P;
+"""
+
+
+def probe_if():
+    """which exitIfStatement does this tree have?  sequential: b = 1 for a = 3; merged per variable: b = 2"""
+    import numpy as np
+    m = _generate(IF_PROBE, "P")
+    r = np.array(m.dae_residual_function(0, [], [], [0, 0], [3.0, 0.0], [], [])).ravel()
+    b = -float(r[1])
+    return "sequential" if b == 1.0 else ("merged" if b == 2.0 else "unknown:%r" % b)
+
+
 def handler(case):
     if case["kind"] == "table":
         import casadi as ca
         res = {"hasattr": {mname: bool(hasattr(ca.MX, mname)) for mname in case["methods"]}, "probes": {},
                "casadi": ca.__version__}
+        try:
+            res["if_probe"] = probe_if()
+        except Exception as e:  # noqa
+            res["if_probe"] = "unknown:%s" % type(e).__name__
         for key, text in case["probes"]:
             try:
                 res["probes"][key] = probe_one(text)
